@@ -855,6 +855,13 @@ class PEval(Folder):
             return
         if name in ("<T as std::convert::Into<U>>::into", "std::convert::Into::into") and len(t.get("generics") or []) == 2:
             src, dst = [self._bound_type(st, g) for g in t["generics"]]
+            from .fold import INT_BITS as _IB2
+            a0 = args[0]
+            if a0 != TOP and a0[0] == "int" and src in _IB2 and (dst in _IB2 or dst in ("f64", "f32")):
+                # lossless numeric widening through the blanket Into
+                self._store(st, fidx, t["dest"], mk_int(dst, a0[2]) if dst in _IB2 else ("float", float(a0[2])))
+                self._enter_block(st, t["target"])
+                return
             if src == dst:
                 self._store(st, fidx, t["dest"], args[0])
                 self._enter_block(st, t["target"])
@@ -1028,6 +1035,13 @@ def _seq_len(pe, v):
     return None
 
 
+def _finite(it, what):
+    """an endless iterator (cycle) may only be consumed by zip/take/next: every other adaptor would need its infinite tail"""
+    if it is not None and len(it) > 3 and it[3] == ("cycle",):
+        raise _Abort("top", "%s of an endless iterator" % what)
+    return it
+
+
 def _as_iter(pe, st, v):
     if v == TOP:
         return None
@@ -1100,7 +1114,7 @@ def _range_incl(pe, st, args, t):
 
 @pmodel("std::iter::Iterator::rev")
 def _rev(pe, st, args, t):
-    it = _as_iter(pe, st, args[0])
+    it = _finite(_as_iter(pe, st, args[0]), "rev()")
     if it is None:
         raise _Abort("top", "rev() of an unknown iterator")
     return ("iter", tuple(reversed(it[1][it[2]:])), 0)
@@ -1108,7 +1122,7 @@ def _rev(pe, st, args, t):
 
 @pmodel("std::iter::Iterator::step_by")
 def _step_by(pe, st, args, t):
-    it = _as_iter(pe, st, args[0])
+    it = _finite(_as_iter(pe, st, args[0]), "step_by()")
     n = args[1]
     if it is None or n == TOP or n[0] != "int":
         raise _Abort("top", "step_by() of an unknown iterator/step")
@@ -1119,7 +1133,7 @@ def _step_by(pe, st, args, t):
 
 @pmodel("std::iter::Iterator::enumerate")
 def _enumerate(pe, st, args, t):
-    it = _as_iter(pe, st, args[0])
+    it = _finite(_as_iter(pe, st, args[0]), "enumerate()")
     if it is None:
         raise _Abort("top", "enumerate() of an unknown iterator")
     return ("iter", tuple(("tuple", (mk_int("usize", i), x)) for i, x in enumerate(it[1][it[2]:])), 0)
@@ -1127,7 +1141,7 @@ def _enumerate(pe, st, args, t):
 
 @pmodel("std::iter::Iterator::chain")
 def _chain(pe, st, args, t):
-    a, b = _as_iter(pe, st, args[0]), _as_iter(pe, st, args[1])
+    a, b = _finite(_as_iter(pe, st, args[0]), "chain()"), _finite(_as_iter(pe, st, args[1]), "chain()")
     if a is None or b is None:
         raise _Abort("top", "chain() of an unknown iterator")
     return ("iter", tuple(a[1][a[2]:]) + tuple(b[1][b[2]:]), 0)
@@ -1153,6 +1167,11 @@ def _take(pe, st, args, t):
     a, n = _as_iter(pe, st, args[0]), args[1]
     if a is None or n == TOP or n[0] != "int":
         raise _Abort("top", "take() of an unknown iterator")
+    if len(a) > 3 and a[3] == ("cycle",):
+        base = list(a[1])
+        if not base:
+            return ("iter", (), 0)
+        return ("iter", tuple(base[(a[2] + i) % len(base)] for i in range(n[2])), 0)
     return ("iter", tuple(a[1][a[2]:a[2] + n[2]]), 0)
 
 
@@ -1164,7 +1183,7 @@ def _truth(v, what):
 
 @pmodel("std::iter::Iterator::filter")
 def _filter(pe, st, args, t):
-    it = _as_iter(pe, st, args[0])
+    it = _finite(_as_iter(pe, st, args[0]), "filter()")
     if it is None:
         raise _Abort("top", "filter() of an unknown iterator")
     out = []
@@ -1176,6 +1195,84 @@ def _filter(pe, st, args, t):
             out.append(("gitem", (b[1], b[2], b[3]), x))
         elif _truth(b, "filter"):
             out.append(x)
+    return ("iter", tuple(out), 0)
+
+
+@pmodel("std::mem::replace", "core::mem::replace", "std::mem::swap", "core::mem::swap", "std::mem::take", "core::mem::take")
+def _mem_ops(pe, st, args, t):
+    nm = (t.get("callee") or "").rsplit("::", 1)[1]
+    r = args[0]
+    if r == TOP or r[0] != "ref" or r[1][0] != "place":
+        raise _Abort("top", "mem::%s through an unknown reference" % nm)
+    old_ = pe._load_ptr(st, r[1])
+    if nm == "replace":
+        pe.store_ptr(st, r[1], args[1])
+        return old_
+    if nm == "swap":
+        r2 = args[1]
+        if r2 == TOP or r2[0] != "ref" or r2[1][0] != "place":
+            raise _Abort("top", "mem::swap through an unknown reference")
+        other = pe._load_ptr(st, r2[1])
+        pe.store_ptr(st, r[1], other)
+        pe.store_ptr(st, r2[1], old_)
+        return UNIT
+    dv = _default_of(pe, t.get("dest_ty") or "")
+    if dv is None:
+        raise _Abort("top", "mem::take of a type whose default is not modelled")
+    pe.store_ptr(st, r[1], dv)
+    return old_
+
+
+def _default_of(pe, ty):
+    from .fold import INT_BITS as IB
+    if ty in IB:
+        return mk_int(ty, 0)
+    if ty == "bool":
+        return mk_bool(False)
+    if ty in ("f64", "f32"):
+        return ("float", 0.0)
+    if ty == "std::string::String":
+        return ("string", ())
+    if ty.startswith("std::vec::Vec<"):
+        return pe.heap.new(0, TOP)
+    if ty.startswith("std::option::Option<"):
+        return NONE
+    if ty == "()":
+        return UNIT
+    return None
+
+
+def _prim_default(pe, st, args, t):
+    dv = _default_of(pe, t.get("dest_ty") or "")
+    if dv is None:
+        raise _Abort("top", "Default::default of %s is not modelled" % t.get("dest_ty"))
+    return dv
+
+
+for _ty in ("u8", "u16", "u32", "u64", "u128", "usize", "i8", "i16", "i32", "i64", "i128", "isize", "bool", "f64", "f32",
+            "std::string::String", "std::vec::Vec<T>", "std::option::Option<T>"):
+    PMODELS["<%s as std::default::Default>::default" % _ty] = _prim_default
+
+
+@pmodel("std::iter::Iterator::scan")
+def _scan(pe, st, args, t):
+    it = _finite(_as_iter(pe, st, args[0]), "scan()")
+    if it is None:
+        raise _Abort("top", "scan() of an unknown iterator")
+    # the closure receives `&mut state`: the state lives in a scratch cell of the current frame
+    fr = st.frames[-1]
+    key = "scan-state-%d" % len(fr[1])
+    fr[1][key] = args[1]
+    fidx = len(st.frames) - 1
+    out = []
+    try:
+        for x in it[1][it[2]:]:
+            o = _known_adt(pe.invoke_closure(st, args[2], [("ref", ("place", fidx, key, ())), x]), OPTION, "scan")
+            if o[3] != "Some":
+                break
+            out.append(o[4][0])
+    finally:
+        fr[1].pop(key, None)
     return ("iter", tuple(out), 0)
 
 
@@ -1195,7 +1292,7 @@ def _take_while(pe, st, args, t):
 
 @pmodel("std::iter::Iterator::map")
 def _map(pe, st, args, t):
-    it = _as_iter(pe, st, args[0])
+    it = _finite(_as_iter(pe, st, args[0]), "map()")
     if it is None:
         raise _Abort("top", "map() of an unknown iterator")
     return ("iter", tuple(pe.invoke_closure(st, args[1], [x]) for x in it[1][it[2]:]), 0)
@@ -1231,7 +1328,7 @@ def _all_any(pe, st, args, t):
 
 @pmodel("std::iter::Iterator::skip")
 def _skip(pe, st, args, t):
-    a, n = _as_iter(pe, st, args[0]), args[1]
+    a, n = _finite(_as_iter(pe, st, args[0]), "skip()"), args[1]
     if a is None or n == TOP or n[0] != "int":
         raise _Abort("top", "skip() of an unknown iterator")
     return ("iter", tuple(a[1][a[2] + n[2]:]), 0)
@@ -1273,6 +1370,8 @@ def _next(pe, st, args, t):
     if it is None:
         raise _Abort("top", "next() on an unknown iterator")
     vals, pos, extra = it[1], it[2], tuple(it[3:])
+    if extra == (("cycle",),) and vals:
+        pos %= len(vals)  # an endless iterator starts over
     if pos >= len(vals):
         pe.store_ptr(st, r[1], ("iter", vals, pos) + extra)
         return NONE
@@ -1406,6 +1505,10 @@ def _split_at(pe, st, args, t):
         n = tgt[3] - tgt[2]
     elif tgt[0] == "harr":
         n = pe.heap.length(tgt)
+    elif tgt[0] == "symvec" and len(tgt) > 1:
+        n = tgt[1]
+    elif tgt[0] == "symslice":
+        n = tgt[2] - tgt[1]
     else:
         raise _Abort("top", "split_at on a non-array")
     if not 0 <= k[2] <= n:
@@ -1693,6 +1796,11 @@ def _slice_get(pe, st, args, t):
     tgt = _deref(pe, st, base)
     if tgt == TOP or idx == TOP or idx[0] != "int":
         raise _Abort("top", "get() on an unknown slice/index")
+    if tgt[0] in ("symvec", "symslice"):
+        lo, hi = (0, tgt[1]) if tgt[0] == "symvec" else (tgt[1], tgt[2])
+        if not 0 <= idx[2] < hi - lo:
+            return NONE
+        return some(("ref", ("const", ("sbyte", lo + idx[2]))))
     if tgt[0] == "array":
         n = len(tgt[1])
     elif tgt[0] == "hview":
